@@ -99,5 +99,27 @@ Fixpoint mid_class_from (open : list (Z * option Z * bool)) (tr : list xev) : N 
   end.
 Definition mid_class (tr : list xev) : N := mid_class_from [] tr.
 
+(* ---- keep-alive pings ("no waiting token or message-ID continuations"; "memory held per peer is
+   bounded by live work, not by history") ----
+   what was observed on a connection with a keep-alive monitor, in order: the keep-alive sent a ping
+   (a new exchange; the ping of the previous round, if still unanswered, is thereby given up by its
+   only owner -- ended by cancellation), a ping could not be sent, the outstanding ping was answered
+   (ended successfully), the connection was declared inactive, some other message was processed, and
+   the number of ping continuations found in the connection's table.  The live work of the
+   keep-alive is the ONE ping it still waits for: more continuations than that are state of ended
+   exchanges.  (1 = token continuation left) *)
+Inductive kev := KPing | KPingFail | KPong | KClosed | KOther | KRead (n : Z).
+Fixpoint ka_class_from (live : Z) (tr : list kev) : N :=
+  match tr with
+  | [] => 0%N
+  | KPing :: r => ka_class_from 1 r
+  | KPingFail :: r => ka_class_from 0 r
+  | KPong :: r => ka_class_from 0 r
+  | KClosed :: r => ka_class_from 0 r
+  | KOther :: r => ka_class_from live r
+  | KRead n :: r => if n <=? live then ka_class_from live r else 1%N
+  end.
+Definition ka_class (tr : list kev) : N := ka_class_from 0 tr.
+
 (* the same as a proposition on the total *)
 Definition total (sz : list Z) : Z := fold_left Z.add sz 0.
